@@ -149,7 +149,19 @@ def work(p):
             db = os.path.join(d, f"{m.name}_{v}.sqlite3")
             write_store(db, rows, vr, {"batch": vr.choice([1, 5, 50, 10000]), "connections": vr.choice([1, 2])})
             env = core.child_env(extra_path=[d], hashseed=str(v % 8), MT_DB_PATH=db)
-            r = core.run_py(["-m", "vf.mon.stub_child", str(vr.choice([0, 7, 300, 2000])), "-c", f"vf.mon.cfg:K{k}_{spec['rewriter']}", "stub", m.name], env=env, timeout=180)
+            # a limit that admits every distinct trace but not every stored row (duplicates must not use it up)
+            lim = ["--limit", str(len(uniq) + 5)] if spec.get("tight_limit") else []
+            if spec.get("tight_limit"):
+                import sqlite3
+
+                conn = sqlite3.connect(db)
+                with conn:
+                    conn.execute("INSERT INTO monkeytype_call_traces SELECT * FROM monkeytype_call_traces WHERE rowid % 3 != ?", (v % 3,))
+                    conn.execute("INSERT INTO monkeytype_call_traces SELECT * FROM monkeytype_call_traces WHERE rowid % 2 = ?", (v % 2,))
+                res.count("tight_limit_variants")
+                res.count("stored_rows_with_duplicates", conn.execute("SELECT count(*) FROM monkeytype_call_traces").fetchone()[0])
+                conn.close()
+            r = core.run_py(["-m", "vf.mon.stub_child", str(vr.choice([0, 7, 300, 2000])), *lim, "-c", f"vf.mon.cfg:K{k}_{spec['rewriter']}", "stub", m.name], env=env, timeout=180)
             res.count("stub_runs")
             os.remove(db)
             if r.returncode != 0:
@@ -188,11 +200,12 @@ def run(ck):
     nsets = 16 if quick else 200
     nvar = 8 if quick else 24
     specs = [{"name": f"vfm14_{ck.seed}_{i}", "seed": f"C14:{ck.seed}:{i}", "k": [0, 3][i % 2], "rewriter": ["DEFAULT", "NoOpRewriter"][(i // 2) % 2], "variants": nvar,
-              "nfuncs": 8} for i in range(nsets)]
+              "nfuncs": 8, "tight_limit": i % 4 == 3} for i in range(nsets)]
     n = min(core.NPROC, nsets)
     for r in core.pmap("vf.props.c14:work", [{"sets": specs[i::n]} for i in range(n)], timeout=3400):
         ck.merge(r)
     ck.need("variant_pairs", 60)
+    ck.need("tight_limit_variants", 8)
     ck.need("sets_where_union_order_differed", 3, "no pair of variants in which a union's member order actually differed")
     return ck.finish(
         rule="trace sets obtained by really tracing generated modules with wide value pools (unions of up to 8 classes incl. a multiple-"
